@@ -260,9 +260,13 @@ func runC20(e *core.Env) {
 		ops := []func() error{
 			func() error { _, err := rc.ManifestGet(ctx, mustRef("ocidir://"+out+":evil")); return err },
 			func() error { _, err := rc.ManifestHead(ctx, mustRef("ocidir://"+out+":evil")); return err },
-			func() error { return rc.ImageCopy(ctx, mustRef("ocidir://"+out+":evil"), mustRef("ocidir://"+other+":copy")) },
+			func() error {
+				return rc.ImageCopy(ctx, mustRef("ocidir://"+out+":evil"), mustRef("ocidir://"+other+":copy"))
+			},
 			func() error { return rc.TagDelete(ctx, mustRef("ocidir://"+out+":evil")) },
-			func() error { return rc.ImageCopy(ctx, mustRef("ocidir://"+out+":good"), mustRef("ocidir://"+out+":good2")) },
+			func() error {
+				return rc.ImageCopy(ctx, mustRef("ocidir://"+out+":good"), mustRef("ocidir://"+out+":good2"))
+			},
 			func() error { return rc.Close(ctx, mustRef("ocidir://"+out)) },
 			func() error {
 				_, err := rc.BlobGet(ctx, mustRef("ocidir://"+out), descriptor.Descriptor{Digest: digest.Digest(evil)})
@@ -272,7 +276,9 @@ func runC20(e *core.Env) {
 				_, err := rc.BlobPut(ctx, mustRef("ocidir://"+out), descriptor.Descriptor{Digest: digest.Digest(evil), Size: 4}, strings.NewReader("data"))
 				return err
 			},
-			func() error { return rc.BlobDelete(ctx, mustRef("ocidir://"+out), descriptor.Descriptor{Digest: digest.Digest(evil)}) },
+			func() error {
+				return rc.BlobDelete(ctx, mustRef("ocidir://"+out), descriptor.Descriptor{Digest: digest.Digest(evil)})
+			},
 			func() error { return rc.ManifestDelete(ctx, mustRef("ocidir://"+out+"@"+evil)) },
 			// references whose digest was set from content (a child descriptor, a subject, a listing)
 			func() error { _, err := rc.ManifestHead(ctx, mustRef("ocidir://"+out).SetDigest(evil)); return err },
@@ -296,8 +302,12 @@ func runC20(e *core.Env) {
 				_, err := rc.ManifestGet(ctx, mustRef("ocidir://"+out+":evilindex"), regclient.WithManifestPlatform(platform.Platform{OS: "linux", Architecture: "amd64"}))
 				return err
 			},
-			func() error { return rc.ImageCopy(ctx, mustRef("ocidir://"+out+":evilindex"), mustRef("ocidir://"+other+":copyix")) },
-			func() error { return rc.ImageCopy(ctx, mustRef("ocidir://"+out+":evilindex"), mustRef("ocidir://"+out+":ix2")) },
+			func() error {
+				return rc.ImageCopy(ctx, mustRef("ocidir://"+out+":evilindex"), mustRef("ocidir://"+other+":copyix"))
+			},
+			func() error {
+				return rc.ImageCopy(ctx, mustRef("ocidir://"+out+":evilindex"), mustRef("ocidir://"+out+":ix2"))
+			},
 			func() error { _, err := rc.ReferrerList(ctx, mustRef("ocidir://"+out).SetDigest(evil)); return err },
 			func() error { return rc.TagDelete(ctx, mustRef("ocidir://"+out+":evilindex")) },
 			func() error { return rc.Close(ctx, mustRef("ocidir://"+out)) },
